@@ -14,7 +14,7 @@ mutual
     | .seq el => el.elemOk && wfTy el
     | .arr el n => el.elemOk && wfTy el && decide (n * 96 ≤ ALLOC_LIMIT)
     | .struct _ ms => wfMs ms
-    | .union _ bs => wfBsTy bs
+    | .union _ _ bs => wfBsTy bs
   def wfBsTy : Bs → Bool
     | .nil => true
     | .cons _ _ _ t r => wfTy t && wfBsTy r
@@ -166,7 +166,7 @@ theorem dElems_bnd {B : Nat} (cfg : Cfg) (h13 : cfg.d13 = true) (ver : Ver) (e :
   | enum _ _ _ => exact dVec_bnd cfg h13 _ (by omega) f hf hB len hlen s h
   | wstr => exact dVec_bnd cfg h13 _ (by omega) f hf hB len hlen s h
   | struct _ _ => exact dVec_bnd cfg h13 _ (by omega) f hf hB len hlen s h
-  | union _ _ => exact dVec_bnd cfg h13 _ (by omega) f hf hB len hlen s h
+  | union _ _ _ => exact dVec_bnd cfg h13 _ (by omega) f hf hB len hlen s h
   | seq _ => simp [Ty.elemOk] at hel
   | arr _ _ => simp [Ty.elemOk] at hel
 
@@ -335,15 +335,21 @@ theorem de_bnd {B : Nat} (cfg : Cfg) (hc : cfg.total = true) (ver : Ver) (e : En
     simp only [de]; exact dEnum_bnd ver e hd ls hw s h
   | .wstr, _, s, h => by
     simp only [de]; exact dWStr_bnd ver e s h
-  | .union disc bs, hw, s, h => by
+  | .union app disc bs, hw, s, h => by
     simp only [wfTy] at hw
-    simp only [de]
-    refine (dPrim_bnd ver e _ s h).bind fun d s1 h1 => ?_
-    split
-    · exact h1
-    · split
-      · exact deAt_bnd cfg hc ver e hB d bs hw _ s1 h1
+    have hU : ∀ s : St, s.rem.length ≤ B → Bnd B (dUnion ver e disc bs (fun d i s1 => deAt cfg ver e d bs i s1) s) := by
+      intro s h
+      unfold dUnion
+      refine (dPrim_bnd ver e _ s h).bind fun d s1 h1 => ?_
+      split
       · exact h1
+      · split
+        · exact deAt_bnd cfg hc ver e hB d bs hw _ s1 h1
+        · exact h1
+    simp only [de]
+    split
+    · exact dDelimited_bnd ver e _ hU s h
+    · exact hU s h
   | .seq el, hw, s, h => by
     simp only [wfTy, Bool.and_eq_true] at hw
     simp only [Cfg.total, Bool.and_eq_true] at hc
